@@ -23,6 +23,7 @@ import (
 	"path/filepath"
 	"reflect"
 	"sort"
+	"strconv"
 	"strings"
 	"sync"
 	"sync/atomic"
@@ -39,6 +40,7 @@ import (
 
 var lockedFlag = flag.Bool("locked", true, "model variant the replay uses: true = tree with the F18 repair (reorgMtx)")
 var fullFlag = flag.Bool("full", false, "no partial-order reduction in the exhaustive search")
+var cfgFlag = flag.String("cfg", "", "only the configuration with this key (e.g. t5-f4-k1-b4-m2-false): its exhaustive search")
 var childFlag = flag.String("child", "", "internal: k/n - run the jobs with index = k mod n and write results.json")
 
 // Final is the state after a run.
@@ -126,11 +128,19 @@ func nextAcc(name string) int {
 		return rFr
 	case "f.WriteHeaders":
 		return rFw
-	case "f.WriteHeaders:exit", "f.RollbackLastBlock:exit":
+	case "f.WriteHeaders:exit":
+		// the goroutine goes on to the channel send: its place in the
+		// channel's queue of senders is taken now
+		return rMw | rEw
+	case "f.RollbackLastBlock:exit":
 		return rMw
+	case "b.FetchHeader":
+		// the second FetchHeader of a rollback iteration is followed by the
+		// channel send (the first is not, but they look the same here)
+		return rBr | rEw
 	case "f.RollbackLastBlock":
 		return rFr | rFw
-	case "b.ChainTip", "b.FetchHeader", "b.FetchHeaderAncestors", "b.FetchHeaderByHeight", "b.HeightFromHash":
+	case "b.ChainTip", "b.FetchHeaderAncestors", "b.FetchHeaderByHeight", "b.HeightFromHash":
 		return rBr
 	case "b.RollbackLastBlock":
 		return rBr | rBw
@@ -648,6 +658,20 @@ func main() {
 		}
 	}
 
+	if *cfgFlag != "" {
+		var keep []job
+		for _, j := range jobs {
+			if j.cfg.key() == *cfgFlag && j.origin == "dfs" {
+				j.budget, j.nrand = 1<<30, 0
+				if n, err := strconv.Atoi(os.Getenv("C03CONC_NRAND")); err == nil {
+					j.nrand = n // diagnostics: random schedules next to the search
+				}
+				keep = append(keep, j)
+			}
+		}
+		jobs = keep
+	}
+
 	// worlds are shared between jobs with the same configuration
 	type worldSlot struct {
 		once sync.Once
@@ -708,7 +732,7 @@ func main() {
 				defer cwg.Done()
 				cdir := filepath.Join(a.Out, fmt.Sprintf("w%d", k))
 				args := []string{"-child", fmt.Sprintf("%d/%d", k, nproc), fmt.Sprintf("-locked=%v", *lockedFlag),
-					fmt.Sprintf("-full=%v", *fullFlag), "-seed", fmt.Sprint(a.Seed), "-tier", a.Tier, "-out", cdir}
+					fmt.Sprintf("-full=%v", *fullFlag), "-cfg", *cfgFlag, "-seed", fmt.Sprint(a.Seed), "-tier", a.Tier, "-out", cdir}
 				if a.Replay != "" {
 					args = append(args, "-replay", a.Replay)
 				}
